@@ -435,3 +435,83 @@ Example C32_hasheader_only_imports_twice :
      end) (mktenv [mkkb 0 99 0] [0] 0) nt_blocks
   = [EImport 1; EImport 2; EImport 4; EImport 3; EFinal 3; EOrphanPruned 5; EImport 4; ESkip 3].
 Proof. exact two_envs_differ. Qed.
+
+(* ---- Closer: Process re-run over the refined pruning block state --------------------------- *)
+From C32 Require Import ProofsNeverTwiceProcess.
+
+(* ProofsNeverTwiceProcess.v runs the repaired Process over ProofsNeverTwice.v's refined block state
+   (penv: ancestor paths, tree root, AddBlock's parent-in-tree refusal): process_x is
+   ModelPrune.process_t with the importer replaced by p_import_all (= import_all_t over penv; the
+   two fragment loops are ModelPrune's own, asked through `erase`), run_x is run_t over penv on the
+   SAME histories (tstep); a header arriving from elsewhere (TKnown) goes through AddBlock as one
+   importer call, TFinalise is pfinalise.
+   For EVERY such history from the genesis state (requests ask for bodies, any sort that
+   permutes), IF the header hash determines the parent hash for every header the history mentions
+   (announced, from elsewhere, in any response - accepted or not) and none of these hashes is the
+   genesis' parent hash (history_par), THEN
+   - the run does not panic;
+   - no Process event is EOrphan (parent never stored) or EDup: parents first, as in
+     C32_pruning_parents_first_provenance (refusals that remain possible: EOrphanPruned and
+     PNotInTree - the parent was stored and a finalisation pruned it / moved the tree root past it);
+   - every hash Process imports has its PROVENANCE (an accepted response of the history in which the
+     stated hash is the header hash);
+   - the hashes imported by Process are PAIRWISE DISTINCT; more: all hashes ever stored (Process
+     imports and headers from elsewhere, x_all_events) are pairwise distinct, none is the genesis,
+     and the final ghost list pe_ever is exactly these, latest first, then the genesis. *)
+Theorem C32_process_never_twice_under_pruning :
+  forall srt : list (list bdata) -> list (list bdata), (forall l, Permutation (srt l) l) ->
+  forall (par : N -> N) bad root steps,
+  par root <> root -> tsteps_body_b steps = true -> history_par par (par root) steps ->
+  exists outs stf,
+    run_x srt bad (init_xstate root (par root)) steps = (outs, false, stf)
+    /\ length outs = length steps
+    /\ Forall (fun e => match e with PE (EOrphan _) | PE (EDup _) => False | _ => True end)
+              (x_proc_events outs)
+    /\ (forall s, In s (pimports (x_proc_events outs)) -> provenance bad steps s)
+    /\ NoDup (pimports (x_proc_events outs))
+    /\ incl (pimports (x_proc_events outs)) (pimports (x_all_events outs))
+    /\ NoDup (pimports (x_all_events outs))
+    /\ ~ In root (pimports (x_all_events outs))
+    /\ pe_ever (xs_env stf) = rev (pimports (x_all_events outs)) ++ [root].
+Proof. exact process_never_twice. Qed.
+Print Assumptions C32_process_never_twice_under_pruning.
+
+(* non-vacuity: the fork tree of C32_never_twice_example as a history of Process calls, a header
+   from elsewhere, an announcement and finalisations; the hypotheses hold; Process is offered the
+   pruned block 4 again and AddBlock refuses it (PNotInTree) *)
+Example C32_process_never_twice_example :
+  nt_par 0 <> 0 /\ tsteps_body_b x_hist = true /\ history_par nt_par (nt_par 0) x_hist
+  /\ match run_x sort_frags [] (init_xstate 0 (nt_par 0)) x_hist with
+     | (outs, p, stf) =>
+       p = false
+       /\ x_all_events outs =
+          [PE (EImport 1); PE (EImport 2); PE (EImport 4); PE (EImport 3); PE (EFinal 3);
+           PE (EOrphanPruned 5); PNotInTree 4; PNotInTree 4; PE (ESkip 3)]
+       /\ x_proc_events outs =
+          [PE (EImport 1); PE (EImport 2); PE (EImport 3); PE (EFinal 3);
+           PE (EOrphanPruned 5); PNotInTree 4; PE (ESkip 3)]
+       /\ map pb_hash (pe_known (xs_env stf)) = [3; 2; 1; 0]
+       /\ pe_ever (xs_env stf) = [3; 4; 2; 1; 0] /\ pe_root (xs_env stf) = 3
+     end.
+Proof. exact process_never_twice_example. Qed.
+
+(* C32_pruning_importer_refines extended to blocks WITH a justification.  At any point of a run of
+   importer calls and finalisations from the genesis (hypotheses of
+   C32_never_reimported_under_pruning), with ModelPrune's pruning switched on: unless AddBlock
+   refuses the block because its parent is no tree node, the refined importer step and
+   ModelPrune's import_block_t on the erased state produce the same events, the same error flag
+   and the SAME BLOCK STATE - also when the block carries a justification, i.e. when the import
+   finalises the block and prunes: the set BlockTree.Prune keeps, read off the stored ancestor
+   paths (pfinalise), is the set ModelPrune's finalise computes with its fuel-bounded ancestor
+   closures over the stored parent links. *)
+Theorem C32_pruning_importer_refines_with_justification :
+  forall (par : N -> N) (root : N) (pre : list pstep) (b : bdata),
+  par root <> root ->
+  (forall b' h, In (PBlock b') (pre ++ [PBlock b]) -> d_header b' = Some h ->
+     h_hash h = d_hash b' /\ h_parent h = par (h_hash h) /\ h_hash h <> par root) ->
+  forall evs0 e evs e' err,
+    p_run (pinit root (par root)) pre = (evs0, e) ->
+    p_import_block e b = (evs, e', err) -> refused_by_tree evs = false ->
+    import_block_t true (erase e) b = (flat_map unPE evs, erase e', err).
+Proof. exact importer_refines_with_justification. Qed.
+Print Assumptions C32_pruning_importer_refines_with_justification.
